@@ -675,17 +675,20 @@ def run(ctx):
         res = tlc(mod, "Checkpoint histories " + what)
         if res.records:
             ctx.sample({"history": res.records[len(res.records) // 3]})
-        replay(ctx, cat, exe, res.records, mod, lambda n: Binding(cat, n + off, A, B, C))
+        # depth 5 over the full constants (618k histories): every 4-call prefix is an MCQuickA history that is
+        # observed after every call; here a quarter is observed after every call, the rest after the last one
+        replay(ctx, cat, exe, res.records, mod, lambda n: Binding(cat, n + off, A, B, C),
+               every_step_of=(lambda n: n % 4 == 0) if mod == "MCThoroughA" else None)
 
     # ---- 3. rewriting a name with another kind (lenient reading, see Checkpoint.tla) -------------
     res = tlc("MCCross", "Checkpoint histories with kind changes")
-    reps = 3 if quick else 16
+    reps = 3 if quick else 10
     big = Repeat(res.records, reps)
     st = replay(ctx, cat, exe, big, "cross", lambda n: Binding(cat, (n // max(1, len(res.records))) * 37 + n + off, A, B, C))
     ctx.extra["cross_kind_branches_not_taken"] = st["branch"]
 
     # ---- 4. deeper random histories ------------------------------------------------------------
-    nsim = 40 if quick else 300
+    nsim = 40 if quick else 200
     res = tlc("MCSim", "Checkpoint simulation", simulate=nsim, depth=12, workers=4, seed=ctx.seed)
     # (half of them observed only at the end: intermediate fresh readers must not be what keeps the file right)
     if res.records:
